@@ -209,10 +209,10 @@ def render_objlib(m, rng=None):
         us = 'foo_' + uscore(nm[3:])
         h.append('typedef struct _%s %s;' % (nm, nm))
         h.append('typedef struct _%s %s;' % (st, st))
+        pre, body = _slot_decls(nm, f['vfuncs'])
+        h.extend(pre)
         h.append('struct _%s {\n  GTypeInterface parent_iface;' % st)
-        for v in f['vfuncs']:
-            ps = ', '.join(apigen.decl(sp, n) for sp, n in v['params']) or 'void'
-            h.append('  %s (*%s) (%s);' % (v['ret'], v['name'], ps))
+        h.extend(body)
         h.append('};')
         gt = ('_' if f['private'] else '') + us + '_get_type'
         h.append('GType %s (void);' % gt)
@@ -234,10 +234,10 @@ def render_objlib(m, rng=None):
         h.append('struct _%s {\n  %s parent_instance;\n  gint priv_count;\n%s};' % (nm, c['pstruct'], extra))
         if c['class_struct']:
             h.append('typedef struct _%sClass %sClass;' % (nm, nm))
+            pre, body = _slot_decls(nm, c['vfuncs'])
+            h.extend(pre)
             h.append('struct _%sClass {\n  %sClass parent_class;' % (nm, c['pstruct']))
-            for v in c['vfuncs']:
-                ps = ', '.join(apigen.decl(sp, n) for sp, n in v['params']) or 'void'
-                h.append('  %s (*%s) (%s);' % (v['ret'], v['name'], ps))
+            h.extend(body)
             h.append('  gpointer padding[4];\n};')
         h.append('GType %s_get_type (void);' % us)
         if c['ctor']:
@@ -326,6 +326,21 @@ def render_objlib(m, rng=None):
         d.append('  <error-quark function=%s domain=%s/>' % (quoteattr(q['func']), quoteattr(q['domain'])))
     d.append('</dump>')
     return '\n'.join(h) + '\n', '\n'.join(d) + '\n'
+
+
+def _slot_decls(owner, vfuncs):
+    """members of a class/interface structure: function pointers written inline or, for some, through a callback typedef of
+    their own (FooButtonComputeFunc compute;) - chosen from the names, not from the random stream"""
+    pre, body = [], []
+    for v in vfuncs:
+        ps = ', '.join(apigen.decl(sp, n) for sp, n in v['params']) or 'void'
+        if (len(owner) + len(v['name'])) % 3 == 0:
+            tn = '%s%sFunc' % (owner, ''.join(w.capitalize() for w in v['name'].split('_')))
+            pre.append('typedef %s (*%s) (%s);' % (v['ret'], tn, ps))
+            body.append('  %s %s;' % (tn, v['name']))
+        else:
+            body.append('  %s (*%s) (%s);' % (v['ret'], v['name'], ps))
+    return pre, body
 
 
 def _dump_props(props):
